@@ -223,7 +223,7 @@ func (a *Range) M__eq__(other Object) (Object, error) {
 		return False, nil
 	}
 
-	if a.Step == 1 {
+	if a.Length == 1 {
 		return True, nil
 	}
 	if a.Step != b.Step {
